@@ -11,7 +11,7 @@
 (*                 position `fixed`, resp. at some position >= max(i, min)        *)
 (* The obligations are checked on every input up to MaxLen over the pattern's own *)
 (* alphabet plus one foreign letter and LF.  One TLC state per facts event.       *)
-EXTENDS ApiOps, TLC
+EXTENDS ApiOps, Engine, TLC
 
 Rec == ndJsonDeserialize(IOEnv.TRACE)
 MaxLenF == 3
@@ -62,6 +62,10 @@ FNext ==
      ELSE IF LangUnspec(c.prog) \/ (c.prog.F.i /\ (\E pr \in PatChars(c.prog.ast) : \E e \in Exotic : InR(e, pr[1], pr[2])))
      THEN TLCSet(2, TLCGet(2) + 1)
      ELSE /\ TLCSet(1, TLCGet(1) + 1)
+          (* translation validation of the compiler: the operator tree the code built is the one the model lowers to *)
+          /\ LET pat == IF ParseFlags(Ev.flags, Ev.xpath).x THEN Strip(Ev.pat) ELSE Ev.pat
+                 model == Program(c.prog, pat) IN
+             TreeOk(model, Ev.facts.ops) \/ Report("lowering", [model |-> model, code |-> Ev.facts.ops])
           /\ \A s \in InputsF(PatAlphabet(c.prog.ast)) : (CaseUnspec(c.prog, s) \/ GcUnspec(c.prog, s)) \/ Obligations(c.prog, Ev.facts, s)
 FAccepted == /\ PrintT("TRACE-STATS " \o ToJson([lines |-> Len(Rec), consumed |-> TLCGet(10) - 1, compared |-> TLCGet(1),
                                                  unspec |-> TLCGet(2)]))
